@@ -242,6 +242,7 @@ for line in sys.stdin:
             elif 'int' in v: kw[name] = v['int']
             elif 'chr' in v: kw[name] = v['chr']
             elif 'flt' in v: kw[name] = v['flt']
+            elif 'num' in v: kw[name] = complex(*v['num']) if isinstance(v['num'], list) else v['num']
             elif 'obj' in v: kw[name] = 7 if v['obj'] == 'int' else None
         mod = {'lapack': lapack, 'base': base}[case['kind']]
         getattr(mod, case['routine'])(**kw)
